@@ -80,6 +80,22 @@ def r2_priority_writes(ctx):
                    "the change-point / yield branch re-prioritises a task other than the one that was running", loc=b.loc(s))
             ctx.ob("C11.R2", "needs-choice|#%d" % n_cp, any(l.endswith("::len") for l in labs) and "const:1" in labs,
                    "that branch is only taken when more than one task is offered", loc=b.loc(s))
+            # a change point is never dropped: once the (change point || yield) test has succeeded, every returning path demotes
+            fd = FlowSlicer(b, control=False)
+            cps = set()
+            for sw in control_deps(b).get(s.bb, ()):
+                dl = fd.operand_labels(b.term(sw)["discr"], b.term_site(sw))
+                if ("field:" + P + "PctScheduler.change_points") in dl or "arg:4" in dl:
+                    cps.add(sw)
+            entry = [x for x in b.dom.get(s.bb, ()) if x not in cps and any(p in cps for p in b.pred[x])]
+            ok2 = False
+            if cps and entry:
+                x0 = max(entry, key=lambda x: len(b.dom.get(x, ())))
+                ok2 = b.path_exists(Site(x0, 0), b.is_return, lambda y, s=s: y == s, start_inclusive=True) is None
+            ctx.ob("C11.R2", "change-point-always-demotes|#%d" % n_cp, ok2,
+                   "once the (change point || is_yielding) test has succeeded, every returning path performs the demotion (no further condition can drop the change point)" if ok2 else
+                   "after the (change point || is_yielding) test has succeeded there is a returning path that skips the demotion: that change point is consumed "
+                   "without demoting the task that was running (e.g. when it has just blocked), so orderings that need exactly this demotion are never produced", loc=b.loc(s))
         elif in_new_task_loop:
             n_new += 1
         else:
